@@ -296,10 +296,13 @@ namespace wc
         const char* given;
         const char* host;
         const char* path;
+        const char* ownQuery = ""; // a query written into the resource string itself
     };
     inline const std::vector<Res>& resources()
     {
-        static std::vector<Res> r = { { "/", "", "/" }, { "/a/b", "", "/a/b" }, { "host:80/a", "host:80", "/a" }, { "http://host/a", "host", "/a" }, { "http://www.host.org/a/b/c", "host.org", "/a/b/c" } };
+        static std::vector<Res> r = { { "/", "", "/" }, { "/a/b", "", "/a/b" }, { "host:80/a", "host:80", "/a" }, { "http://host/a", "host", "/a" }, { "http://www.host.org/a/b/c", "host.org", "/a/b/c" },
+                                      // no path at all; a query straight after the authority; a query after a path
+                                      { "host:8080", "host:8080", "/" }, { "http://host", "host", "/" }, { "http://host:81?x=1", "host:81", "/", "x=1" }, { "host/p/q?x=1&y=2", "host", "/p/q", "x=1&y=2" } };
         return r;
     }
     inline const std::vector<std::vector<std::pair<std::string, std::string>>>& queries()
@@ -435,6 +438,8 @@ static void build_space(bool thorough, int Kops)
                 for (size_t q = 0; q < queries().size(); ++q)
                     for (size_t h = 0; h < hs.size(); ++h)
                     {
+                        if (*resources()[r].ownQuery && q != 0)
+                            continue; // (a resource that carries its own query is not combined with params())
                         if (!thorough && (h + mth + r) % 4 != 0)
                             continue;
                         for (int c = 0; c <= 3; ++c)
